@@ -23,6 +23,27 @@ def sudoku_near_complete(k: int = 4, cells=((0, 0), (0, 1), (1, 0), (4, 4), (4, 
     return DatabaseGenerator(np.stack(boards))
 
 
+def sudoku_dead_ends(cases=((0, 0, 3), (4, 4, 5), (8, 8, 7), (2, 6, 1))) -> Any:
+    """Boards on which a locally legal but wrong digit exists: on the solved sample, for a cell A=(r,c)
+    and a digit y != solution[A], blank A and the cells holding y in A's row, column and box."""
+    from jumanji.environments.logic.sudoku.constants import SOLVED_BOARD_SAMPLE
+    from jumanji.environments.logic.sudoku.generator import DatabaseGenerator
+
+    sol = np.array(SOLVED_BOARD_SAMPLE)
+    boards = []
+    for r, c, y in cases:
+        assert sol[r, c] != y
+        b = sol.copy()
+        b[r, c] = 0
+        br, bc = 3 * (r // 3), 3 * (c // 3)
+        for rr in range(9):
+            for cc in range(9):
+                if sol[rr, cc] == y and (rr == r or cc == c or (br <= rr < br + 3 and bc <= cc < bc + 3)):
+                    b[rr, cc] = 0
+        boards.append(b)
+    return DatabaseGenerator(np.stack(boards))
+
+
 def _pick(key: Any, n: int) -> Any:
     import jax
 
